@@ -7,7 +7,7 @@ Require Import BB.Base.Str BB.Base.Xml BB.Model.PegSyntax BB.Model.Unparse.
 Require Import BB.Gen.Grammar BB.Gen.TablesTypes BB.Gen.TablesXsl.
 Require Import BB.Proofs.Tables BB.Model.UnparseDoc BB.Proofs.UnparseText.
 Require Import BB.Model.EidSpec BB.Proofs.UnparseEids.
-Require Import BB.Base.Dict BB.Model.Types BB.Model.Peg BB.Gen.TablesParser BB.Model.Convert BB.Model.Eid BB.Model.EidSpec BB.Model.PreParse BB.Model.XmlGen BB.Gen.TablesLibs BB.Proofs.Totality BB.Proofs.PlainLineConvert BB.Proofs.ParagraphRoundTrip BB.Proofs.HierElement BB.Proofs.HierElementConvert BB.Proofs.HierNoHeading BB.Proofs.HierNoHeadingConvert BB.Proofs.SectionRoundTrip BB.Proofs.CrossheadingConvert BB.Proofs.CrossheadingRoundTrip.
+Require Import BB.Base.Dict BB.Model.Types BB.Model.Peg BB.Gen.TablesParser BB.Model.Convert BB.Model.Eid BB.Model.EidSpec BB.Model.PreParse BB.Model.XmlGen BB.Gen.TablesLibs BB.Proofs.Totality BB.Proofs.PlainLineConvert BB.Proofs.ParagraphRoundTrip BB.Proofs.HierElement BB.Proofs.HierElementConvert BB.Proofs.HierNoHeading BB.Proofs.HierNoHeadingConvert BB.Proofs.SectionRoundTrip BB.Proofs.CrossheadingConvert BB.Proofs.CrossheadingRoundTrip BB.Proofs.RoundTripEids.
 
 (* every element of the hierarchical template is printed with a keyword the parser reads back as
    the same element (other has no keyword: listed gap, it is unparsed by the catch-all template) *)
@@ -137,3 +137,34 @@ Example C05_crossheading_round_trip_example :
   convert (of_string "/akn/za/act/2009/1") (of_string "hier_element") (of_string "part_1") (unparse_doc x) = OkR x.
 Proof. vm_compute. reflexivity. Qed.
 
+
+(* Wherever the round trip holds it does not depend on the ids the document carried: the unparser ignores eId attributes, so a copy
+   with stale, scrambled or missing eIds is written as the same text and converts to the document with the generated ids
+   (Proofs/RoundTripEids.v). *)
+Theorem C05_round_trip_regenerates_eids : forall uri root prefix x y,
+  convert uri root prefix (unparse_doc x) = OkR x ->
+  erase_eids y = erase_eids x ->
+  convert uri root prefix (unparse_doc y) = OkR x.
+Proof. exact round_trip_regenerates_eids. Qed.
+Print Assumptions C05_round_trip_regenerates_eids.
+
+(* ... for the basic hierarchical element: whatever eId attributes (any number, any values, or none) the element and its paragraph carry *)
+Theorem C05_section_round_trip_any_eids : forall uri prefix kw n h t a1 a2 root_meta att_meta,
+  assoc_str uri meta_templates = Some (root_meta, att_meta) ->
+  In kw hier_keywords ->
+  num_ok n -> Forall (fun c => c <> TAB /\ c <> 13 /\ c <> 45) n -> clean_num n <> [] -> valid_text n = true ->
+  line_text h -> line_text t ->
+  Forall (fun kv => fst kv = EID) a1 -> Forall (fun kv => fst kv = EID) a2 ->
+  let tag := hier_name kw in
+  let cand := candidate prefix tag (clean_num n) in
+  convert uri (of_string "hier_element") prefix (unparse_doc (hier_x tag a1 a2 n h t))
+  = OkR (hier_x tag [(EID, cand)] [(EID, cand ++ DUSCORE ++ P1)] n h t).
+Proof. exact section_round_trip_any_eids. Qed.
+Print Assumptions C05_section_round_trip_any_eids.
+
+Example C05_section_round_trip_any_eids_example :
+  convert (of_string "/akn/za/act/2009/1") (of_string "hier_element") (of_string "chp_2")
+          (unparse_doc (hier_x (of_string "subsection") [] [(EID, of_string "stale_7")] (of_string "(3A)") (of_string "PART 1 - **x**") (of_string "SUBHEADING {{*r}}")))
+  = OkR (hier_x (of_string "subsection") [(EID, of_string "chp_2__subsec_3A")] [(EID, of_string "chp_2__subsec_3A__p_1")]
+                (of_string "(3A)") (of_string "PART 1 - **x**") (of_string "SUBHEADING {{*r}}")).
+Proof. vm_compute. reflexivity. Qed.
